@@ -27,8 +27,11 @@ bool diverge(vh::Case& c, ST& a, ComplexModel& Ma, const ST& other, const Comple
   for (auto& op : h.ops) {
     c.log("[" + who + "] " + op.show());
     if (!stc::apply_op(c, a, Ma, op, who + ".")) return false;
+    if (!stc::op_drops_filtration_cache(op.kind)) a.clear_filtration();  // documented duty of the caller after a modification
     if (!stc::full_check(c, a, Ma, uni, sig + ",mutated_object", true, "mutated.")) return false;
+    if (!stc::check_filtration_range(c, a, Ma, sig + ",mutated_object", "mutated.")) return false;
     if (!stc::full_check(c, other, Mother, uni, sig + ",other_object_after_mutation", true, "independence.")) return false;
+    if (!stc::check_filtration_range(c, other, Mother, sig + ",other_object_after_mutation", "independence.")) return false;
     c.count("steps.divergent");
   }
   return true;
@@ -62,6 +65,12 @@ void run_case(vh::Case& c, const Gen& g, const std::string& optname) {
   c.log("scenario " + sig + " target=" + (bkind == 0 ? "empty" : bkind == 1 ? "small" : "large"));
   c.count(std::string("scenario.") + names[scenario]);
   if (!stc::full_check(c, *A, MA, uni, sig + ",source_before", false, "pre.")) return;  // sanity, does not refresh dimension
+  // filtration caches: built (warm) or not, on source and target, before the operation under test
+  const bool warmA = r.chance(2, 3), warmB = r.chance(2, 3);
+  A->clear_filtration(); B->clear_filtration();
+  if (warmA) { if (!stc::check_filtration_range(c, *A, MA, sig + ",source_before", "pre.")) return; c.count("state.source_cache_warm"); }
+  if (warmB) { if (!stc::check_filtration_range(c, *B, MB, sig + ",target_before", "pre.")) return; c.count("state.target_cache_warm"); }
+  sig += std::string(warmA ? ",src_cache_warm" : "") + (warmB ? ",dst_cache_warm" : "");
 
   auto two_way = [&](std::unique_ptr<ST>& X, ComplexModel& MX, std::unique_ptr<ST>& Y, ComplexModel& MY) -> bool {
     // X and Y should be equal-but-independent or simply independent; mutate each, destroy in random order
@@ -77,7 +86,9 @@ void run_case(vh::Case& c, const Gen& g, const std::string& optname) {
       auto C = std::make_unique<ST>(*A);
       ComplexModel MC = MA;
       if (!stc::full_check(c, *C, MC, uni, sig + ",copy", true, "copy.")) return;
+      if (!stc::check_filtration_range(c, *C, MC, sig + ",copy", "copy.")) return;
       if (!stc::full_check(c, *A, MA, uni, sig + ",source_after", true, "source.")) return;
+      if (!stc::check_filtration_range(c, *A, MA, sig + ",source_after", "source.")) return;
       if (!(*C == *A)) { c.violation("copy.operator_eq", sig, "copy != source"); return; }
       if (!two_way(A, MA, C, MC)) return;
       break;
@@ -85,7 +96,9 @@ void run_case(vh::Case& c, const Gen& g, const std::string& optname) {
     case 1: {  // copy assignment onto empty / smaller / larger
       *B = *A; MB = MA;
       if (!stc::full_check(c, *B, MB, uni, sig + ",copy", true, "copy.")) return;
+      if (!stc::check_filtration_range(c, *B, MB, sig + ",copy", "copy.")) return;
       if (!stc::full_check(c, *A, MA, uni, sig + ",source_after", true, "source.")) return;
+      if (!stc::check_filtration_range(c, *A, MA, sig + ",source_after", "source.")) return;
       if (!(*B == *A)) { c.violation("copy.operator_eq", sig, "assigned copy != source"); return; }
       if (!two_way(A, MA, B, MB)) return;
       break;
@@ -94,6 +107,7 @@ void run_case(vh::Case& c, const Gen& g, const std::string& optname) {
       ST& ref = *A;
       *A = ref;
       if (!stc::full_check(c, *A, MA, uni, sig + ",self", true, "self.")) return;
+      if (!stc::check_filtration_range(c, *A, MA, sig + ",self", "self.")) return;
       if (!diverge(c, *A, MA, *A, MA, uni, g, "A", sig)) return;
       break;
     }
@@ -101,7 +115,9 @@ void run_case(vh::Case& c, const Gen& g, const std::string& optname) {
       auto C = std::make_unique<ST>(std::move(*A));
       ComplexModel MC = MA; ComplexModel ME;
       if (!stc::full_check(c, *C, MC, uni, sig + ",moved_to", true, "move.")) return;
+      if (!stc::check_filtration_range(c, *C, MC, sig + ",moved_to", "move.")) return;
       if (!stc::full_check(c, *A, ME, uni, sig + ",moved_from", true, "moved_from.")) return;
+      if (!stc::check_filtration_range(c, *A, ME, sig + ",moved_from", "moved_from.")) return;
       ST fresh; if (!(*A == fresh)) { c.violation("moved_from.operator_eq", sig, "moved-from tree != empty tree"); return; }
       if (!two_way(A, ME, C, MC)) return;
       break;
@@ -109,7 +125,9 @@ void run_case(vh::Case& c, const Gen& g, const std::string& optname) {
     case 4: {  // move assignment
       *B = std::move(*A); MB = MA; ComplexModel ME;
       if (!stc::full_check(c, *B, MB, uni, sig + ",moved_to", true, "move.")) return;
+      if (!stc::check_filtration_range(c, *B, MB, sig + ",moved_to", "move.")) return;
       if (!stc::full_check(c, *A, ME, uni, sig + ",moved_from", true, "moved_from.")) return;
+      if (!stc::check_filtration_range(c, *A, ME, sig + ",moved_from", "moved_from.")) return;
       ST fresh; if (!(*A == fresh)) { c.violation("moved_from.operator_eq", sig, "moved-from tree != empty tree"); return; }
       if (!two_way(A, ME, B, MB)) return;
       break;
@@ -118,7 +136,9 @@ void run_case(vh::Case& c, const Gen& g, const std::string& optname) {
       using std::swap;
       swap(*A, *B); std::swap(MA, MB);
       if (!stc::full_check(c, *A, MA, uni, sig + ",swapped", true, "swap.")) return;
+      if (!stc::check_filtration_range(c, *A, MA, sig + ",swapped", "swap.")) return;
       if (!stc::full_check(c, *B, MB, uni, sig + ",swapped", true, "swap.")) return;
+      if (!stc::check_filtration_range(c, *B, MB, sig + ",swapped", "swap.")) return;
       if (!two_way(A, MA, B, MB)) return;
       break;
     }
@@ -126,6 +146,7 @@ void run_case(vh::Case& c, const Gen& g, const std::string& optname) {
       ST& ref = *A;
       *A = std::move(ref);
       if (!stc::full_check(c, *A, MA, uni, sig + ",self", true, "self.")) return;
+      if (!stc::check_filtration_range(c, *A, MA, sig + ",self", "self.")) return;
       break;
     }
     case 6: {  // binary serialisation
@@ -142,6 +163,7 @@ void run_case(vh::Case& c, const Gen& g, const std::string& optname) {
         catch (const std::exception& e) { c.violation("deserialize.roundtrip", sig, std::string("deserialize of own serialisation threw: ") + e.what()); return; }
         ComplexModel MD = MA;
         if (!stc::full_check(c, D, MD, uni, sig + ",deserialized", true, "deserialize.")) return;
+      if (!stc::check_filtration_range(c, D, MD, sig + ",deserialized", "deserialize.")) return;
         if (!(D == *A)) { c.violation("deserialize.operator_eq", sig, "deserialized tree != source"); return; }
         if (!diverge(c, D, MD, *A, MA, uni, g, "D", sig, 6)) return;
       }
@@ -183,6 +205,7 @@ void run_case(vh::Case& c, const Gen& g, const std::string& optname) {
         ComplexModel MT = MA;
         c.count("cmp.text_io");
         if (!stc::full_check(c, T, MT, uni, sig + ",reread", true, "text_io.")) return;
+      if (!stc::check_filtration_range(c, T, MT, sig + ",reread", "text_io.")) return;
         if (!(T == *A)) { c.violation("text_io.operator_eq", sig, "re-read tree != source"); return; }
         if (!diverge(c, T, MT, *A, MA, uni, g, "T", sig, 6)) return;
       } else {
